@@ -35,7 +35,7 @@ def rule(resource, level, levels, default):
 
 
 def setup():
-    hook.install()
+    hook.install(symkeys=('androguard.core.androconf', 'androguard.core.api_specific_resources'))
     from androguard.core import api_specific_resources as R
     from androguard.core import androconf
     R.logger = NullLogger()
@@ -44,6 +44,8 @@ def setup():
     R.isinstance = sx_isinstance
     androconf.int = sx_int
     androconf.str = sx_str
+    hook.track_sets(androconf)
+    hook.track_sets(R)
     LV = shipped_levels()
 
     def which_dir(text):
@@ -166,6 +168,24 @@ def run(ctx):
             judge(eng, resource, API.e, val, pc, ext, label, regions)
             ctx.sample(dict(resource=resource, form='int', path_decisions=len(pc)))
         eng.partition_guard()
+    # ---- two requests for the same level in one process, in both orders (the answer to the second must not depend on
+    # what the first one found)
+    for first, second in ((DIRS[1], DIRS[0]), (DIRS[0], DIRS[1])):
+        label = 'sequence %s then %s, int' % (first, second)
+        eng = ctx.new_engine(pre=[API.e >= -(1 << 100), API.e <= (1 << 100)])
+        regions = {'c39_zero': API.e == 0}
+
+        def both():
+            return (androconf.load_api_specific_resource_module(first, API), androconf.load_api_specific_resource_module(second, API))
+        for pc, (kind, val) in eng.explore(both, keep_pcs=True):
+            ctx.reached(label)
+            ext = lambda m, first=first, second=second: dict(resource=second, api=mval(m, API), as_string=False, before=first)
+            if kind == 'exc':
+                ctx.obligation(eng, pc, z3.BoolVal(False), ext, regions, label=label, what='raised %r' % (val,))
+                continue
+            judge(eng, first, API.e, val[0], pc, lambda m, first=first: dict(resource=first, api=mval(m, API), as_string=False), label, regions)
+            judge(eng, second, API.e, val[1], pc, ext, label, regions)
+        eng.partition_guard()
     # ---- decimal strings
     forms = [(False, 1), (False, 2), (False, 3), (True, 1), (True, 2)]
     for resource in DIRS:
@@ -237,8 +257,11 @@ def replay(w):
     default = androconf.CONF['DEFAULT_API']
     api = w['api']
     try:
+        if w.get('before'):
+            _load(w['before'], api)              # the earlier request of the same process
         got = _load(w['resource'], api)
     except Exception as e:
         return True, '%s api=%r raised %r' % (w['resource'], api, e)
     exp = [w['resource'], rule(w['resource'], int(api), LV, default)]
-    return got != exp, 'load_api_specific_resource_module(%r, %r) opened %r, rule says %r' % (w['resource'], api, got, exp)
+    return got != exp, 'load_api_specific_resource_module(%r, %r)%s opened %r, rule says %r' % (
+        w['resource'], api, (' after a request for %r' % w['before']) if w.get('before') else '', got, exp)
